@@ -192,6 +192,42 @@ fn vertex_offset_checks(job: &Job, st: &mut Stats, nv: usize) {
         };
         Some((ok, buffers.vertices.len(), buffers.indices))
     };
+    // simple_builder (u16 indices, positions) on pre-filled buffers: same vertices / indices as the generic one,
+    // and the all-or-nothing guarantee when a vertex is refused
+    {
+        use lyon_tessellation::geometry_builder::simple_builder;
+        let run16 = |simple: bool, fail_at: Option<usize>| -> Option<(bool, Vec<Point>, Vec<u16>)> {
+            let mut buffers: VertexBuffers<Point, u16> = VertexBuffers::new();
+            buffers.vertices = vec![point(-1.0, -1.0); 4];
+            buffers.indices = vec![0, 1, 2, 2, 1, 3];
+            let ok = if simple {
+                let mut fb = FailAt { inner: simple_builder(&mut buffers), fail_at, seen: 0 };
+                catch(AssertUnwindSafe(|| if is_stroke { exec_stroke_dyn(job, &mut fb).is_ok() } else { exec_fill_dyn(job, &mut fb).is_ok() }))?
+            } else {
+                let mut fb = FailAt { inner: BuffersBuilder::new(&mut buffers, Positions), fail_at, seen: 0 };
+                catch(AssertUnwindSafe(|| if is_stroke { exec_stroke_dyn(job, &mut fb).is_ok() } else { exec_fill_dyn(job, &mut fb).is_ok() }))?
+            };
+            Some((ok, buffers.vertices, buffers.indices))
+        };
+        for fail_at in [None, Some(1usize)] {
+            if fail_at.map_or(false, |k| k >= nv) {
+                continue;
+            }
+            st.inc("simple_builder_runs");
+            let text = format!("simple_builder {:?} refusing vertex {:?}", job, fail_at);
+            match (run16(true, fail_at), run16(false, fail_at)) {
+                (Some(a), Some(b)) => {
+                    if a.0 != b.0 || a.1.len() != b.1.len() || a.2 != b.2 || a.1.iter().zip(b.1.iter()).any(|(p, q)| p.x.to_bits() != q.x.to_bits() || p.y.to_bits() != q.y.to_bits()) {
+                        st.fail(jobj(&[("what", jstr("simple_builder gives different buffers than BuffersBuilder::new(.., Positions)")), ("input", jstr(&text))]));
+                    }
+                    if !a.0 && (a.1.len() != 4 || a.2.len() != 6) {
+                        st.fail(jobj(&[("what", jstr("simple_builder: a failed tessellation left vertices or indices behind")), ("input", jstr(&text))]));
+                    }
+                }
+                _ => st.fail(jobj(&[("what", jstr("tessellation into a simple_builder panicked")), ("input", jstr(&text))])),
+            }
+        }
+    }
     for fail_at in [None, Some(1usize)] {
         if let Some(k) = fail_at {
             if k >= nv {
